@@ -27,6 +27,8 @@ let hash_ids : (langs, n) Hashtbl.t = Hashtbl.create 16
 let chash (l : langs) : n =
   try Hashtbl.find hash_ids l with Not_found ->
     let id = n_of_int (Hashtbl.length hash_ids + 1) in Hashtbl.add hash_ids l id; id
+(* every path the generator can spell is valid UTF-8, i.e. has a cache key *)
+let keyable (_ : path) = true
 let fmt_cache w = match w.w_cache with
   | CAbsent -> "ABSENT" | CCorrupt -> "CORRUPT"
   | CValid (v, h, es) ->
@@ -72,14 +74,14 @@ let () =
         let segs = ref [] in
         let w = ref world0 in
         List.iter (fun o ->
-          let (w', r) = step truth csize chash !w o in
+          let (w', r) = step truth csize chash keyable !w o in
           w := w';
           match r with
           | Some (a, b) -> segs := (fmt_out a ^ " || " ^ fmt_out b ^ " || " ^ fmt_cache w') :: !segs
           | None -> ()) h;
         print_endline (String.concat " | " (List.rev !segs) ^
-          Printf.sprintf " ## RW=%s RR=%s FORGE=%s MONO=%s TRANSP=%s" (b01 (has_racy_write truth csize chash h)) (b01 (has_racy_rename truth csize chash h)) (b01 (has_forgery truth csize chash h))
-            (b01 (monotone_clock h)) (b01 (transparent truth csize chash h)))
+          Printf.sprintf " ## RW=%s RR=%s FORGE=%s MONO=%s TRANSP=%s" (b01 (has_racy_write truth csize chash keyable h)) (b01 (has_racy_rename truth csize chash keyable h)) (b01 (has_forgery truth csize chash keyable h))
+            (b01 (monotone_clock h)) (b01 (transparent truth csize chash keyable h)))
       | _ -> print_endline "BADLINE"
     with Failure m -> print_endline ("MODELFAIL " ^ m))
   done with End_of_file -> ()
